@@ -33,7 +33,7 @@ theorem parseInt_single {c : Char} {lo hi n : Nat} (h : parseInt [c] lo hi = som
 /-- what `shape` guarantees about the characters of `w#n` -/
 theorem shape_nth {cs : List Char} {w n : Char} (h : shape cs = some (.nth w n)) :
     '1' ≤ w ∧ w ≤ '7' ∧ '1' ≤ n ∧ n ≤ '5' := by
-  unfold shape at h
+  unfold shape shapeTail at h
   repeat' split at h
   all_goals first
     | (simp only [Option.some.injEq, Shape.nth.injEq, reduceCtorEq] at h; done)
